@@ -79,6 +79,13 @@ def callee_name(call: ast.Call) -> str:
     return ""
 
 
+def call_recv(call: ast.AST) -> Optional[ast.AST]:
+    """the receiver of a method call ``<recv>.m(...)``; None for ``f(...)`` (a bare name, e.g. a
+    bound method cached in a local) and for non-calls — rules never crash on the latter."""
+    f = getattr(call, "func", None)
+    return f.value if isinstance(f, ast.Attribute) else None
+
+
 def unwrap_await(node: ast.AST) -> ast.AST:
     while isinstance(node, ast.Await):
         node = node.value
